@@ -86,6 +86,7 @@ std::map<std::string, std::string> Executor::ctx_of(Obj& o) {
   c["polishing"] = std::to_string(s.getInt(P::i("solution_polishing")));
   { int m = s.getInt(P::i("solvemode")); c["exact"] = (m == 2 || (m == 1 && !(s.getReal(P::r("feastol")) >= 1e-9 && s.getReal(P::r("opttol")) >= 1e-9))) ? "1" : "0"; }
   c["update"] = s.getInt(P::i("factor_update_type")) == 0 ? "ETA" : "FT";
+  c["rowboundflips"] = s.getBool(P::b("rowboundflips")) ? "1" : "0";
   return c;
 }
 
@@ -344,6 +345,14 @@ void Executor::op_copy(const Op& op, TaskCtx& t) {
     if (why.empty() && a.hasBasis() != b.hasBasis()) why = "hasBasis";
     if (why.empty() && a.hasSol() != b.hasSol()) why = "hasSol";
     if (why.empty() && a.hasBasis()) { std::vector<int> r1, c1, r2, c2; a.getBasis(r1, c1); b.getBasis(r2, c2); if (r1 != r2 || c1 != c2) why = "basis"; }
+    { int sm = a.getInt(P::i("solvemode")); bool exact = (sm == 2 || (sm == 1 && !(a.getReal(P::r("feastol")) >= 1e-9 && a.getReal(P::r("opttol")) >= 1e-9))) && a.getInt(P::i("syncmode")) != 0;
+      if (why.empty() && exact && a.hasSol()) {
+        // rational solution first: the real getters would convert and cache it in the source
+        if (b.objValueQ() != a.objValueQ()) why = "rational objective value";
+        std::vector<sut::Q> q1, q2; bool g1 = a.getPrimalQ(q1), g2 = b.getPrimalQ(q2); if (why.empty() && (g1 != g2 || q1 != q2)) why = "rational primal";
+        g1 = a.getDualQ(q1); g2 = b.getDualQ(q2); if (why.empty() && (g1 != g2 || q1 != q2)) why = "rational dual";
+        if (why.empty() && (a.isPrimalFeasible() != b.isPrimalFeasible() || a.isDualFeasible() != b.isDualFeasible())) why = "feasibility flags";
+      } }
     if (why.empty() && a.hasSol()) {
       std::vector<double> x1, x2; bool p1 = a.getPrimal(x1), p2 = b.getPrimal(x2);
       if (p1 != p2 || (p1 && (x1.size() != x2.size() || (x1.size() && memcmp(x1.data(), x2.data(), x1.size() * 8))))) why = "primal";
